@@ -41,6 +41,48 @@ SEARCH_KEYS = [b'ALL', b'BODY hello', b'TEXT value', b'SUBJECT a', b'FROM x', b'
                b'LARGER 10', b'SMALLER 100000', b'NOT BODY zzz', b'OR SUBJECT a TEXT b']
 
 
+def duo_scenarios() -> list:
+    """two connections on one mailbox: what one does while the other idles, to messages the
+    other has not been told are gone, to the mailbox the other has selected.
+    -> [(label, script)]"""
+    gone = [(b'B', b'STORE 2 +FLAGS.SILENT (\\Deleted)'), (b'B', b'EXPUNGE')]
+    out = []
+    atts = FETCH_ATTS + [b'BODY[TEXT]<0.10>', b'BODY[1]', b'BODY[2]', b'BODY[2.HEADER]', b'BODY[2.TEXT]',
+                         b'BINARY[1]', b'BINARY.SIZE[2]', b'RFC822.TEXT', b'(UID FLAGS INTERNALDATE)']
+    for a in atts:
+        a = a if a.startswith(b'(') or a in (b'ALL', b'FULL', b'FAST') else b'(' + a + b')'
+        out.append(('expunged-fetch', gone + [(b'A', b'FETCH 2 ' + a), (b'A', b'UID FETCH 1:* ' + a),
+                                              (b'A', b'FETCH 1:* ' + a), (b'A', b'NOOP'), (b'B', b'NOOP')]))
+    for c in (b'STORE 2 +FLAGS (\\Seen)', b'STORE 1:* -FLAGS.SILENT (\\Deleted)', b'COPY 2 Sent',
+              b'MOVE 2 Sent', b'COPY 1:* %BOX%', b'SEARCH 2', b'SEARCH TEXT hello', b'SEARCH SUBJECT two',
+              b'UID SEARCH 1:* BODY in', b'UID EXPUNGE 1:*', b'EXPUNGE', b'UID STORE 1:* FLAGS (\\Deleted)',
+              b'UID MOVE 1:* Sent', b'CHECK', b'CLOSE', b'EXAMINE %BOX%', b'STATUS %BOX% (MESSAGES RECENT UNSEEN)'):
+        out.append(('expunged-cmd', gone + [(b'A', c), (b'A', b'NOOP'), (b'B', b'NOOP')]))
+    others = [[(b'B', b'CLOSE'), (b'B', b'DELETE %BOX%')], [(b'B', b'CLOSE'), (b'B', b'RENAME %BOX% %BOX%r')],
+              [(b'B', b'DELETE %BOX%')], [(b'B', b'RENAME %BOX% %BOX%r')],
+              [(b'B', b'APPEND %BOX% {12+}\r\nSubject: n\r\n\r\n')], gone,
+              [(b'B', b'STORE 1:* +FLAGS (\\Answered)')], [(b'B', b'CLOSE')], [(b'B', b'LOGOUT')],
+              [(b'B', b'MOVE 1:* Sent')], [(b'B', b'CLOSE'), (b'B', b'DELETE %BOX%')],
+              [(b'B', b'DELETE %BOX%'), (b'B', b'NOOP'), (b'B', b'STATUS INBOX (MESSAGES)')],
+              [(b'B', b'RENAME %BOX% %BOX%r'), (b'B', b'CREATE %BOX%')]]
+    for o in others:
+        out.append(('idle-interference', [(b'A', b'IDLE')] + o + [(b'B', b'NOOP'), (b'A', b'DONE'),
+                                                                   (b'A', b'NOOP'), (b'B', b'NOOP')]))
+        out.append(('idle-interference', [(b'A', b'IDLE'), (b'B', b'IDLE')] + [(b'A', b'DONE')]
+                    + [(b'A', x[1]) for x in o] + [(b'B', b'DONE'), (b'B', b'NOOP'), (b'A', b'NOOP')]))
+    cmds = [b'FETCH 1 (UID)', b'FETCH 1:* (BODY[])', b'UID FETCH 1:* (FLAGS ENVELOPE)', b'STORE 1 +FLAGS (\\Seen)',
+            b'SEARCH ALL', b'SEARCH TEXT hello', b'EXPUNGE', b'UID EXPUNGE 1:*', b'CHECK', b'NOOP',
+            b'COPY 1 Sent', b'MOVE 1 Sent', b'CLOSE', b'IDLE', b'STATUS %BOX% (MESSAGES)', b'SELECT %BOX%',
+            b'EXAMINE %BOX%', b'APPEND %BOX% {12+}\r\nSubject: n\r\n\r\n', b'DELETE %BOX%', b'LOGOUT',
+            b'RENAME %BOX% %BOX%q', b'LIST "" *', b'SELECT INBOX']
+    for pre, label in (([(b'B', b'CLOSE'), (b'B', b'DELETE %BOX%')], 'mailbox-deleted'),
+                       ([(b'B', b'CLOSE'), (b'B', b'RENAME %BOX% %BOX%r')], 'mailbox-renamed')):
+        for c in cmds:
+            tail = [(b'A', b'DONE')] if c == b'IDLE' else []
+            out.append((label, pre + [(b'A', c)] + tail + [(b'A', b'NOOP'), (b'B', b'NOOP')]))
+    return [(lab, [(w.decode(), d) for w, d in sc]) for lab, sc in out]
+
+
 def known_sig(clause, meta, tr):
     """narrow signatures of the open known findings"""
     import re as _re
@@ -56,6 +98,59 @@ def known_sig(clause, meta, tr):
             and clause in ('C06_NoException', 'C06_Answered', 'C06_ByeBeforeClose', 'C06_NoServerBug'):
         return 'BinaryFetchUndecodableCTE'
     return None
+
+
+def _jitem(x):
+    """a work item as JSON (bytes as latin-1 text, marked)"""
+    if isinstance(x, (bytes, bytearray)):
+        return {'b': bytes(x).decode('latin1')}
+    if isinstance(x, (list, tuple)):
+        return [_jitem(y) for y in x]
+    return x
+
+
+def _unjitem(x):
+    if isinstance(x, dict) and set(x) == {'b'}:
+        return x['b'].encode('latin1')
+    if isinstance(x, list):
+        return tuple(_unjitem(y) for y in x)
+    return x
+
+
+def replay(path: str, prefix: str = 'C06_') -> int:
+    """Run the recorded work item (one connection, or a two-connection scenario) again on a
+    fresh server and have TLC judge the new transcript(s)."""
+    import json
+    rec = json.load(open(path))
+    item = rec['replay'].get('item')
+    if item is None:
+        print('this replay file carries no work item (written before replays of this check existed)')
+        return 2
+    item = _unjitem(item)
+    if item[0] == 'duo':
+        item = (item[0], item[1], [tuple(x) for x in item[2]])
+    elif item[0] == 'line':
+        item = item[:5] + (list(item[5]),) + item[6:]
+    out = _execute([(0, item)])
+    traces = [r[1] for r in sorted(out, key=lambda r: r[0])]
+    verdicts, vres = tlc.validate_total('Trace_Total.tla', 'Trace_Total.cfg', traces)
+    if len(verdicts) != len(traces):
+        print('trace validation incomplete: ' + (vres.error or vres.output[-800:]))
+        return 2
+    status = 0
+    for k, ev in enumerate(traces, 1):
+        line, clause = verdicts[k]
+        for e in ev[-14:]:
+            print('  ', e)
+        m = sorted(out, key=lambda r: r[0])[k - 1][2]
+        if clause.startswith(prefix):
+            sig = known_sig(clause, m, ev)
+            print(f'REPRODUCED: {clause} at event {line}' + (f' (known finding {sig})' if sig else ''))
+            status = 1
+        else:
+            print(f'connection {k}: NOT REPRODUCED (recorded: {rec["replay"].get("clause")}; '
+                  f'now: {clause or "every clause holds"})')
+    return status
 
 
 def main(tier: str) -> int:
@@ -101,7 +196,9 @@ def _execute(items):
         if hang and w is not None:
             try:
                 w.close()
-            except Exception:
+            except BaseException:
+                # the watchdog's exception, raised inside a server task, comes out of the
+                # loop once more when the tasks waiting for that task are run
                 pass
             w = None
 
@@ -115,6 +212,15 @@ def _execute(items):
                 hang = True     # a command still owes its answer (it may hold a lock): fresh world next
             fin(idx, tr, hang, {'kind': label, 'state': st, 'tokens': tokens,
                                 'bytes': [c[:200].decode('latin1') for c in chunks]})
+            continue
+        if it[0] == 'duo':
+            _k, label, script = it
+            res = T.run_duo(world(), idx, script)
+            for j, (tr, hang) in enumerate(res):
+                fin(idx + j / 2, tr, hang and j == 1,
+                    {'kind': 'duo-' + label, 'state': 'selected', 'tokens': ('AB'[j],) + tuple(
+                        f'{w}: {d[:60].decode("latin1")}' for w, d in script),
+                     'bytes': [f'{w}: {d[:80].decode("latin1")}' for w, d in script]})
             continue
         _k, backend, tokens, body = it
         mw = World(backend, demo=False) if backend == 'maildir' else world()
@@ -174,7 +280,6 @@ def campaign(run, tier: str, prefix: str) -> None:
     run.assumptions += [
         'the input quantifier is covered at TOKEN level only: arbitrary and mutated raw byte strings '
         'are not enumerable by a TLA+ model (DESIGN.md section 8)',
-        'lines longer than the 64 KiB stream limit are outside the property',
         'dict backend for IMAP token lines; stored-message half on dict and, for a slice, on maildir']
     dumps = {}
     for key, cfg, what in (('cmd', 'CmdTokens_cmd2.cfg', 'cmd tokens <= 2'),
@@ -229,7 +334,11 @@ def campaign(run, tier: str, prefix: str) -> None:
         for mt in (msgs if backend == 'dict' else msgs[::6] if quick else msgs[::8]):
             items.append(('message', backend, mt, T.concretise_msg(mt, rng)))
         for ht in (hdrs if backend == 'dict' else hdrs[::12] if quick else hdrs[::3]):
-            items.append(('message', backend, ht, T.concretise_hdr(ht, rng)))
+            for var in ([None] if backend != 'dict' or T.hdr_variants(ht) == 1 else range(T.hdr_variants(ht))):
+                items.append(('message', backend, ht, T.concretise_hdr(ht, rng, var)))
+    duos = duo_scenarios()
+    items += [('duo', lab, sc) for lab, sc in duos]
+    run.notes['two_connection_scenarios'] = len(duos)
     indexed = list(enumerate(items))
     nproc = max(1, min(int(os.environ.get('VERIF_C06_WORKERS', '8')), os.cpu_count() or 1))
     parts = [indexed[k::nproc] for k in range(nproc)]
@@ -239,8 +348,8 @@ def campaign(run, tier: str, prefix: str) -> None:
     else:
         results = [_execute(parts[0])]
     flat = sorted((r for part in results for r in part), key=lambda r: r[0])
-    if len(flat) != len(items):
-        run.machinery(f'{len(items) - len(flat)} executions lost in the workers')
+    if len(flat) != len(items) + len(duos):
+        run.machinery(f'{len(items) + len(duos) - len(flat)} executions lost in the workers')
         return
     traces = [r[1] for r in flat]
     meta = [r[2] for r in flat]
@@ -264,7 +373,7 @@ def campaign(run, tier: str, prefix: str) -> None:
         if m['kind'] == 'message' and len(toks) == 3 and toks[2] in ('top', 'part', 'nested', 'deepmulti', 'deeprfc'):
             nontriv = toks[1] not in plain_vals
         else:
-            nontriv = m['kind'] == 'imap-mutated-template' or any(
+            nontriv = m['kind'] == 'imap-mutated-template' or m['kind'].startswith('duo-') or any(
                 t in bad_tokens or t.startswith(('HDR_', 'TEXT_', 'BARE', 'NOEOL', 'WSONLY')) for t in toks)
         run.count_exec((m['kind'], m.get('state'), toks), nontrivial=nontriv, validated=not mine)
         if clause and not mine:
@@ -273,7 +382,8 @@ def campaign(run, tier: str, prefix: str) -> None:
             sig = known_sig(clause, m, ev)
             run.violation(f'{clause}: {m["kind"]} state={m.get("state")} tokens={m["tokens"]} '
                           f'bytes={m["bytes"]!r:.300}',
-                          {'check': prefix[:3], 'meta': m, 'clause': clause, 'events': ev[-12:]}, sig)
+                          {'check': prefix[:3], 'meta': m, 'clause': clause, 'events': ev[-12:],
+                           'item': _jitem(items[int(flat[i - 1][0])])}, sig)
     run.notes['clauses_of_other_properties_seen'] = other
     run.sample(meta[0])
     run.sample(meta[-1])
